@@ -225,7 +225,9 @@ CHECKS.update({
     },
     "C11": {
         "text": "Machine-checked proof: generic commit-point linearizability theorem, instantiated for the store's interleaving model "
-                "with threads read as connections (one command in flight per connection); no GET can panic its blocking thread. "
+                "with threads read as connections (one command in flight per connection); widening an operation's interval (the request is "
+                "sent before the store is invoked, the reply arrives after it returned) keeps a history accepted by the monitor, so the "
+                "client-visible history is linearizable whenever the store-level one is; no GET can panic its blocking thread. "
                 "Partial: tokio scheduling is not modelled. The check runs the real server with 3-8 concurrent client connections "
                 "(SET/GET/DEL on 1-3 hot keys, merges and rollovers running), records client-side send/receive instants and replies, "
                 "and decides each history with the linearizability checker; two forced schedules (SET parked before publication while "
